@@ -147,6 +147,10 @@ def observe(seed):
         return {'skip': 'noconv'}
     except Exception as e:
         import traceback
+        if raised:
+            # a read-only call had raised before (e.g. a complex-step check on a solver that is not complex-safe): what
+            # happens to the model after an exception is not what this property states; counted, not judged
+            return {'skip': 'exception after a read-only call had raised: ' + raised[0][:80]}
         return {'exc': '%s: %s' % (type(e).__name__, e), 'tb': traceback.format_exc()[-1500:], 'md': md}
     return {'trace': {'ninst': 2, 'init': init, 'ev': ev, 'dyn': seed % 3 == 0}, 'md': md, 'seed': seed,
             'cyclic': bool(md.get('cycle')), 'nro': sum(1 for e in ev if e['a'] in RO), 'raised': raised}
